@@ -174,7 +174,7 @@ func handleSubStr(params internal.HandlerFuncParams) ([]byte, error) {
 	if reversed {
 		res := ""
 		for i := len(str) - 1; i >= 0; i-- {
-			res = res + string(str[i])
+			res = res + string([]byte{str[i]})
 		}
 		str = res
 	}
